@@ -80,6 +80,19 @@ STOP:
 	return nil
 }
 
+// route returns the route registered for the method under exactly this pattern, or nil. The pattern is searched
+// as a raw key (like an insertion would), not matched like a request.
+func (r roots) route(method, pattern string) *Route {
+	index := r.methodIndex(method)
+	if index < 0 {
+		return nil
+	}
+	if n := r.search(r[index], pattern); n != nil && n.isLeaf() && n.route.pattern == pattern {
+		return n.route
+	}
+	return nil
+}
+
 // lookup  returns the node matching the host and/or path. If lazy is false, it parses and record into c, path segment according to
 // the route definition. In case of indirect match, tsr is true and n != nil.
 func (r roots) lookup(t *iTree, method, hostPort, path string, c *cTx, lazy bool) (n *node, tsr bool) {
@@ -455,12 +468,15 @@ Walk:
 		}
 
 		if charsMatched < len(path) {
-			// linear search
+			// linear search; a '{' or '*' in the request is never a static match for the delimiter that starts
+			// a param or catch-all child key, those children are evaluated below in priority order.
 			idx := -1
-			for i := 0; i < len(current.childKeys); i++ {
-				if current.childKeys[i] == path[charsMatched] {
-					idx = i
-					break
+			if path[charsMatched] != bracketDelim && path[charsMatched] != starDelim {
+				for i := 0; i < len(current.childKeys); i++ {
+					if current.childKeys[i] == path[charsMatched] {
+						idx = i
+						break
+					}
 				}
 			}
 
